@@ -138,6 +138,9 @@ def gen_cases(tier, seed):
     for fam in ("qp", "mgda", "cagrad"):
         for lo, hi in _blocks(len(weak_cases()), 3):
             cases.append(dict(src="weak", m=0, n=0, lo=lo, hi=hi, fam=fam, mode="base", seed=seed))
+    for i in range(len(imbalanced_cases())):
+        cases.append(dict(src="imb", m=0, n=0, lo=i, hi=i + 1, fam="mgda", mode="verylong", seed=seed))
+        cases.append(dict(src="imb", m=0, n=0, lo=i, hi=i + 1, fam="mgda", mode="base", seed=seed))
     only = os.environ.get("VERIF_C04_ONLY")  # development aid (mutant triage): restrict to some families; never set in real runs
     if only:
         cases = [c for c in cases if c["fam"] in only.split(",")]
@@ -156,10 +159,23 @@ def weak_cases():
     return out
 
 
+def imbalanced_cases():
+    """Rows of very different lengths: a short row well aligned with the mean of the rows (Frank-Wolfe's first step lands on that
+    vertex with gamma = 1) which conflicts with another row (the vertex is not the min-norm point). Added after a seeded change -
+    stopping at the first vertex reached with gamma = 1 - was missed: the convergence-rate bound only sees it with a large budget."""
+    out = []
+    for k in (2.0, 3.0, 4.0):
+        out.append(np.array([[1.0, 0.0], [-1.0, k], [2 * k, k]]))
+        out.append(np.array([[2 * k, k, 0.0], [1.0, 0.0, 0.0], [-1.0, k, 1.0]]))
+    return out
+
+
 def _matrices(case):
     lo, hi = case["lo"], case["hi"]
     if case["src"] == "weak":
         return weak_cases()[lo:hi]
+    if case["src"] == "imb":
+        return imbalanced_cases()[lo:hi]
     if case["src"] == "ternary":
         return [A.ternary_index(case["m"], case["n"], i) for i in range(lo, hi)]
     if case["src"] == "canon":
@@ -172,7 +188,7 @@ def _matrices(case):
 def _variants(J0, mode):
     """The (label, matrix) variants of one alphabet matrix for a mode."""
     m = J0.shape[0]
-    if mode in ("base", "long"):
+    if mode in ("base", "long", "verylong"):
         return [("1", J0)]
     if mode == "gscale":
         return [(f"t={t:g}", J0 * t) for t in GSCALES]
@@ -198,6 +214,8 @@ def _configs(fam, mode, m):
             return [("mgda", 20, 0.0)]
         if mode == "long":
             return [("mgda", 1000, 0.0)]
+        if mode == "verylong":
+            return [("mgda", 20000, 0.0)]
         return [("mgda", 20, 0.0), ("mgda", 100, 1e-3)] if mode == "rows" else [("mgda", 5, 0.0), ("mgda", 100, 0.0), ("mgda", 100, 1e-3)]
     if mode == "base":
         return [("cagrad", c) for c in CAGRAD_C]
@@ -327,6 +345,37 @@ def check_one(J, cfg, ref_cache, key):
     return viol, mg, conflict, out
 
 
+def _buffer_reuse(mats, fam, viol):
+    """The matrices of the block are copied one after the other into ONE pre-allocated tensor (as a training loop re-fills a Jacobian
+    buffer) and aggregated by ONE instance: every result must be bit-identical to the result of a new instance on a new tensor (added
+    after a seeded change - a cache keyed on the identity of the matrix tensor - was missed)."""
+    import torch
+    from torchjd import aggregation as T
+
+    mk = {"qp": [lambda: T.UPGrad(), lambda: T.DualProj()], "mgda": [lambda: T.MGDA()], "cagrad": [lambda: T.CAGrad(c=1.0)]}[fam]
+    execs = 0
+    shapes = sorted({M.shape for M in mats})
+    for shp in shapes:
+        block = [M for M in mats if M.shape == shp and np.any(M)]
+        if len(block) < 2:
+            continue
+        for make in mk:
+            agg, buf = make(), torch.empty(shp, dtype=torch.float64)
+            for J in block[:12]:
+                buf.copy_(torch.tensor(J, dtype=torch.float64))
+                try:
+                    x = agg(buf).numpy().copy()
+                    y = make()(torch.tensor(J, dtype=torch.float64)).numpy()
+                except Exception:
+                    continue  # exceptions are reported by the main loop
+                execs += 2
+                if x.tobytes() != y.tobytes():
+                    viol.append(dict(sig=f"result-depends-on-tensor-identity:{type(agg).__name__}", cls=f"bufreuse:{type(agg).__name__}",
+                                     msg=f"{type(agg).__name__}: J={J.tolist()} copied into a re-used buffer gives {x.tolist()}, on a new tensor {y.tolist()}"))
+                    break
+    return execs
+
+
 def run_case(case):
     mats = _matrices(case)
     fam, mode = case["fam"], case["mode"]
@@ -359,6 +408,8 @@ def run_case(case):
                 if v is not None:
                     v["cls"] = v["sig"] + ":" + tag + ":" + mode
                     viol.append(v)
+    if mode == "base":
+        execs += _buffer_reuse(mats, fam, viol)
     return dict(
         viol=viol, execs=execs, outcomes=sorted(outcomes), nontrivial=nontriv, dropped=dropped, margin=margin, maxima=maxima, counters=counters
     )
